@@ -29,9 +29,11 @@ VARIABLES
   st,       \* stream -> [seen, kind, port, ans (pending deferred answer or "-"), dec (decisions sent), rep (errors reported), asked]
   via,      \* conn -> [st: "idle"|"waitaddr"|"reg"|"done"|"refused", circ, port]
   wire,     \* commands written in this step
+  hold,     \* the SETCONF that installs the via-circuit attacher has not been answered yet
+  cq,       \* commands queued behind that SETCONF (one command is on the wire at a time)
   steps
 
-vars == <<att, cs, st, via, wire, steps>>
+vars == <<att, cs, st, via, wire, hold, cq, steps>>
 
 S0 == [seen |-> FALSE, kind |-> "", port |-> 0, ans |-> "-", dec |-> <<>>, rep |-> 0, asked |-> 0]
 V0 == [st |-> "idle", circ |-> 0, port |-> 0]
@@ -39,9 +41,12 @@ V0 == [st |-> "idle", circ |-> 0, port |-> 0]
 Init ==
   /\ att = "none" /\ cs = [c \in Circs |-> "none"]
   /\ st = [s \in Streams |-> S0] /\ via = [k \in Conns |-> V0]
-  /\ wire = <<>> /\ steps = 0
+  /\ wire = <<>> /\ hold = FALSE /\ cq = <<>> /\ steps = 0
 
 Tick == steps' = steps + 1
+\* commands issued in a step reach the wire at once unless the connection is busy with the held SETCONF
+Out(W) == IF hold THEN wire' = <<>> /\ cq' = cq \o W /\ UNCHANGED hold
+                  ELSE wire' = W /\ UNCHANGED <<cq, hold>>
 
 \* what _maybe_attach's issue_stream_attach does with the attacher's answer for stream s
 Decide(s, a) ==
@@ -60,14 +65,14 @@ NewStream(s, kind, p, a, mode) ==
   /\ a \in Answers /\ mode \in Modes
   /\ IF att = "none" \/ kind = "exit"
      THEN /\ st' = [st EXCEPT ![s] = [S0 EXCEPT !.seen = TRUE, !.kind = kind, !.port = p]]
-          /\ wire' = <<>> /\ UNCHANGED via
+          /\ Out(<<>>) /\ UNCHANGED via
      ELSE IF att = "A"
      THEN IF mode = "def"
           THEN /\ st' = [st EXCEPT ![s] = [S0 EXCEPT !.seen = TRUE, !.kind = kind, !.port = p, !.ans = a, !.asked = 1]]
-               /\ wire' = <<>> /\ UNCHANGED via
+               /\ Out(<<>>) /\ UNCHANGED via
           ELSE LET d == Decide(s, a) IN
                /\ st' = [st EXCEPT ![s] = [S0 EXCEPT !.seen = TRUE, !.kind = kind, !.port = p, !.dec = d.dec, !.rep = d.rep, !.asked = 1]]
-               /\ wire' = d.w /\ UNCHANGED via
+               /\ Out(d.w) /\ UNCHANGED via
      ELSE \* "V": matched by (local address, port); unrelated streams are left to Tor
           IF ViaFor(p) # {}
           THEN LET k == CHOOSE x \in ViaFor(p) : TRUE
@@ -75,9 +80,9 @@ NewStream(s, kind, p, a, mode) ==
                IN /\ via' = [via EXCEPT ![k].st = IF ok THEN "done" ELSE "failed"]
                   /\ st' = [st EXCEPT ![s] = [S0 EXCEPT !.seen = TRUE, !.kind = kind, !.port = p, !.asked = 1,
                                                       !.dec = IF ok THEN <<via[k].circ>> ELSE <<0>>]]
-                  /\ wire' = << <<"ATTACHSTREAM", s, IF ok THEN via[k].circ ELSE 0>> >>
+                  /\ Out(<< <<"ATTACHSTREAM", s, IF ok THEN via[k].circ ELSE 0>> >>)
           ELSE /\ st' = [st EXCEPT ![s] = [S0 EXCEPT !.seen = TRUE, !.kind = kind, !.port = p, !.dec = <<0>>, !.asked = 1]]
-               /\ wire' = << <<"ATTACHSTREAM", s, 0>> >> /\ UNCHANGED via
+               /\ Out(<< <<"ATTACHSTREAM", s, 0>> >>) /\ UNCHANGED via
   /\ Tick /\ UNCHANGED <<att, cs>>
 
 \* the Deferred the scripted attacher returned fires
@@ -85,29 +90,41 @@ Answer(s) ==
   /\ st[s].seen /\ st[s].ans # "-"
   /\ LET d == Decide(s, st[s].ans) IN
        /\ st' = [st EXCEPT ![s].ans = "-", ![s].dec = d.dec, ![s].rep = d.rep]
-       /\ wire' = d.w
+       /\ Out(d.w)
   /\ Tick /\ UNCHANGED <<att, cs, via>>
 
 \* TorState.set_attacher
 SetAttacher(a) ==
   /\ a \in {"A", "B", "none"}
   /\ IF a = "none"
-     THEN att' = "none" /\ wire' = << <<"SETCONF", 0, 0>> >>
-     ELSE IF att = "none" /\ a = "A" THEN att' = "A" /\ wire' = << <<"SETCONF", 0, 1>> >>
+     THEN att' = "none" /\ Out(<< <<"SETCONF", 0, 0>> >>)
+     ELSE IF att = "none" /\ a = "A" THEN att' = "A" /\ Out(<< <<"SETCONF", 0, 1>> >>)
      ELSE \* the same attacher again: nothing; a different one (B, or A while V is installed): refused
-          UNCHANGED att /\ wire' = <<>>
+          UNCHANGED att /\ Out(<<>>)
   /\ (a = "B" => att # "none")       \* B is only used as "a second, different attacher"
   /\ (a = "none" => att # "V")       \* the module-wide via-circuit attacher is never removed by the user
   /\ Tick /\ UNCHANGED <<cs, st, via>>
 
-\* TorCircuitEndpoint.connect through circuit c
-ViaConnect(k, c) ==
+\* TorCircuitEndpoint.connect through circuit c.  The first such connection installs the module-wide
+\* via-circuit attacher (SETCONF __LeaveStreamsUnattached=1) and goes on once Tor has answered;
+\* late = Tor answers that SETCONF in a later step (ConfAck).  Connections made meanwhile share
+\* the attacher that is being installed and go straight on.
+ViaConnect(k, c, late) ==
   /\ via[k].st = "idle" /\ cs[c] = "BUILT"
   /\ att # "A"      \* the via-circuit API and a user attacher are not mixed (documented as an error)
-  /\ via' = [via EXCEPT ![k] = [st |-> "waitaddr", circ |-> c, port |-> 0]]
+  /\ late \in BOOLEAN /\ (late => att = "none")
+  /\ via' = [via EXCEPT ![k] = [st |-> IF late THEN "waitconf" ELSE "waitaddr", circ |-> c, port |-> 0]]
   /\ att' = "V"
-  /\ wire' = IF att = "none" THEN << <<"SETCONF", 0, 1>> >> ELSE <<>>
+  /\ IF att = "none"
+     THEN wire' = << <<"SETCONF", 0, 1>> >> /\ hold' = late /\ UNCHANGED cq
+     ELSE Out(<<>>)
   /\ Tick /\ UNCHANGED <<cs, st>>
+
+\* Tor answers the held SETCONF: queued commands follow, the first connection goes on
+ConfAck ==
+  /\ hold /\ hold' = FALSE /\ wire' = cq /\ cq' = <<>>
+  /\ via' = [k \in Conns |-> IF via[k].st = "waitconf" THEN [via[k] EXCEPT !.st = "waitaddr"] ELSE via[k]]
+  /\ Tick /\ UNCHANGED <<att, cs, st>>
 
 \* the SOCKS connection of k is made from local port p
 ViaAddr(k, p) ==
@@ -115,15 +132,15 @@ ViaAddr(k, p) ==
   /\ \A j \in Conns : via[j].st = "reg" => via[j].port # p
   /\ \A s \in Streams : st[s].seen => st[s].port # p       \* the stream for this connection comes later
   /\ via' = [via EXCEPT ![k].st = "reg", ![k].port = p]
-  /\ wire' = <<>> /\ Tick /\ UNCHANGED <<att, cs, st>>
+  /\ Out(<<>>) /\ Tick /\ UNCHANGED <<att, cs, st>>
 
 \* circuits appear, get built, go away (circuits in use by a pending via connection stay)
 CircStep(c, to) ==
   /\ \/ cs[c] = "none" /\ to = "BUILDING"
      \/ cs[c] = "BUILDING" /\ to \in {"BUILT", "GONE"}
-     \/ cs[c] = "BUILT" /\ to = "GONE" /\ \A k \in Conns : via[k].st \in {"waitaddr", "reg"} => via[k].circ # c
+     \/ cs[c] = "BUILT" /\ to = "GONE" /\ \A k \in Conns : via[k].st \in {"waitconf", "waitaddr", "reg"} => via[k].circ # c
   /\ cs' = [cs EXCEPT ![c] = to]
-  /\ wire' = <<>> /\ Tick /\ UNCHANGED <<att, st, via>>
+  /\ Out(<<>>) /\ Tick /\ UNCHANGED <<att, st, via>>
 
 Next ==
   /\ steps < MaxSteps
@@ -131,7 +148,8 @@ Next ==
           NewStream(s, kind, p, a, mode) /\ (att # "A" => a = "none" /\ mode = "imm")
      \/ \E s \in Streams : Answer(s)
      \/ \E a \in {"A", "B", "none"} : SetAttacher(a)
-     \/ \E k \in Conns, c \in Circs : ViaConnect(k, c)
+     \/ \E k \in Conns, c \in Circs, late \in BOOLEAN : ViaConnect(k, c, late)
+     \/ ConfAck
      \/ \E k \in Conns, p \in Ports : ViaAddr(k, p)
      \/ \E c \in Circs, to \in {"BUILDING", "BUILT", "GONE"} : CircStep(c, to)
 
@@ -150,5 +168,7 @@ ViaExact ==
      \E s \in Streams : st[s].seen /\ st[s].port = via[k].port /\ st[s].dec = <<via[k].circ>>
 Answered == \A s \in Streams : (st[s].seen /\ st[s].asked = 1 /\ st[s].ans = "-" /\ st[s].kind # "exit") =>
                (Len(st[s].dec) + st[s].rep = 1 \/ (st[s].dec = <<>> /\ st[s].rep = 0))
-TypeOK == att \in {"none", "A", "V"}
+\* a via-circuit connection is never refused: every one made while the attacher is (being) installed shares it
+ViaNeverRefused == \A k \in Conns : via[k].st \in {"idle", "waitconf", "waitaddr", "reg", "done", "failed"}
+TypeOK == att \in {"none", "A", "V"} /\ (~hold => cq = <<>>) /\ (hold => att = "V")
 =============================================================================
